@@ -85,6 +85,46 @@ def tree_py(v):
     return {'list': list, 'tuple': tuple, 'set': set, 'frozenset': frozenset}[cls](seq)
 
 
+def arg_py(v):
+    """Python object for a default: like tree_py, with T expressions for [k: targ] leaves"""
+    if v['k'] == 'targ':
+        return tsteps(v['steps'])
+    if v['k'] != 'c':
+        return scalar_py(v)
+    cls, items = v['cls'], v['items']
+    if cls in MAPCLS:
+        d = OrderedDict() if cls == 'odict' else {}
+        for e in items:
+            d[arg_py(e['key'])] = arg_py(e['val'])
+        return d
+    return {'list': list, 'tuple': tuple, 'set': set, 'frozenset': frozenset}[cls]([arg_py(x) for x in items])
+
+
+def poison(res, target):
+    """What a careless caller does to a result: every mutable container of it that is not an
+    object of the target gets an extra element.  (A spec evaluated again must not show it.)"""
+    own = set(snapshot(target)[1])
+    seen = set()
+
+    def walk(x):
+        if id(x) in own or id(x) in seen or not isinstance(x, (dict, list, tuple, set, frozenset)):
+            return
+        seen.add(id(x))
+        for y in (list(x.values()) if isinstance(x, dict) else list(x)):
+            walk(y)
+        if isinstance(x, dict):
+            x['#'] = 1
+        elif isinstance(x, list):
+            x.append('#')
+        elif isinstance(x, set):
+            x.add('#')
+    walk(res)
+
+
+def has_default(p):
+    return '"hasdef": true' in __import__('json').dumps(p)
+
+
 def tree_cells(tree):
     """Flatten a tree into heap cells (spec/GlomData.tla encoding); returns (cells, root)."""
     cells = []
@@ -222,7 +262,7 @@ def seq_of(p, items):
 
 
 def _default(p):
-    return {'default': tree_py(p['def'])} if p['hasdef'] else {}
+    return {'default': arg_py(p['def'])} if p['hasdef'] else {}
 
 
 def mkspec(p, ctx):
@@ -438,10 +478,24 @@ def construct(fn):
     return 'ok'
 
 
+def plain_default(d):
+    """defaults are plain builtin containers (OrderedDict -> dict): see PlainDefault in GlomMatch.tla"""
+    if d['k'] != 'c':
+        return d
+    d = dict(d)
+    if d['cls'] == 'odict':
+        d['cls'] = 'dict'
+    d['items'] = [{'key': plain_default(e['key']), 'val': plain_default(e['val'])} if d['cls'] in MAPCLS else plain_default(e)
+                  for e in d['items']]
+    return d
+
+
 def normalize(p):
     """fill in the fields later versions of the AST added (generators may omit them)"""
     p = dict(p)
     op = p['op']
+    if p.get('hasdef'):
+        p['def'] = plain_default(p['def'])
     if op == 'regex':
         p.setdefault('flags', '')
     elif op == 'm':
